@@ -14,6 +14,7 @@ static inline int tr_half(int h, int a, int b) { return 2 * tr(h >> 1, a, b) + (
 static void ref_swap_v(Snap &s, int a, int b) {
   for (int e = 0; e < s.nE; ++e) { s.efrom[e] = tr(s.efrom[e], a, b); s.eto[e] = tr(s.eto[e], a, b); }
   bool t = s.vdel[a]; s.vdel[a] = s.vdel[b]; s.vdel[b] = t;
+  int i = s.vid[a]; s.vid[a] = s.vid[b]; s.vid[b] = i;
 }
 static void ref_swap_e(Snap &s, int a, int b) {
   for (int f = 0; f < s.nF; ++f) for (int k = 0; k < s.fval[f]; ++k) s.fhe[f][k] = tr_half(s.fhe[f][k], a, b);
@@ -21,17 +22,20 @@ static void ref_swap_e(Snap &s, int a, int b) {
   t = s.efrom[a]; s.efrom[a] = s.efrom[b]; s.efrom[b] = t;
   t = s.eto[a]; s.eto[a] = s.eto[b]; s.eto[b] = t;
   bool d = s.edel[a]; s.edel[a] = s.edel[b]; s.edel[b] = d;
+  int i = s.eid[a]; s.eid[a] = s.eid[b]; s.eid[b] = i;
 }
 static void ref_swap_f(Snap &s, int a, int b) {
   for (int c = 0; c < s.nC; ++c) for (int k = 0; k < s.cval[c]; ++k) s.chf[c][k] = tr_half(s.chf[c][k], a, b);
   for (int k = 0; k < MAXFV; ++k) { int t = s.fhe[a][k]; s.fhe[a][k] = s.fhe[b][k]; s.fhe[b][k] = t; }
   int t = s.fval[a]; s.fval[a] = s.fval[b]; s.fval[b] = t;
   bool d = s.fdel[a]; s.fdel[a] = s.fdel[b]; s.fdel[b] = d;
+  int i = s.fid[a]; s.fid[a] = s.fid[b]; s.fid[b] = i;
 }
 static void ref_swap_c(Snap &s, int a, int b) {
   for (int k = 0; k < MAXCV; ++k) { int t = s.chf[a][k]; s.chf[a][k] = s.chf[b][k]; s.chf[b][k] = t; }
   int t = s.cval[a]; s.cval[a] = s.cval[b]; s.cval[b] = t;
   bool d = s.cdel[a]; s.cdel[a] = s.cdel[b]; s.cdel[b] = d;
+  int i = s.cid[a]; s.cid[a] = s.cid[b]; s.cid[b] = i;
 }
 
 // ---- removal of one entity whose dependants are already gone, order-preserving ---------------------
@@ -39,21 +43,21 @@ static inline int sh(int x, int h) { return x > h ? x - 1 : x; }
 static inline int sh_half(int x, int h) { return 2 * sh(x >> 1, h) + (x & 1); }
 static void ref_remove_v(Snap &s, int h) {
   for (int e = 0; e < s.nE; ++e) { s.efrom[e] = sh(s.efrom[e], h); s.eto[e] = sh(s.eto[e], h); }
-  for (int i = h; i + 1 < s.nV; ++i) s.vdel[i] = s.vdel[i + 1];
+  for (int i = h; i + 1 < s.nV; ++i) { s.vdel[i] = s.vdel[i + 1]; s.vid[i] = s.vid[i + 1]; }
   --s.nV;
 }
 static void ref_remove_e(Snap &s, int h) {
   for (int f = 0; f < s.nF; ++f) for (int k = 0; k < s.fval[f]; ++k) s.fhe[f][k] = sh_half(s.fhe[f][k], h);
-  for (int i = h; i + 1 < s.nE; ++i) { s.efrom[i] = s.efrom[i + 1]; s.eto[i] = s.eto[i + 1]; s.edel[i] = s.edel[i + 1]; }
+  for (int i = h; i + 1 < s.nE; ++i) { s.efrom[i] = s.efrom[i + 1]; s.eto[i] = s.eto[i + 1]; s.edel[i] = s.edel[i + 1]; s.eid[i] = s.eid[i + 1]; }
   --s.nE;
 }
 static void ref_remove_f(Snap &s, int h) {
   for (int c = 0; c < s.nC; ++c) for (int k = 0; k < s.cval[c]; ++k) s.chf[c][k] = sh_half(s.chf[c][k], h);
-  for (int i = h; i + 1 < s.nF; ++i) { s.fval[i] = s.fval[i + 1]; s.fdel[i] = s.fdel[i + 1]; for (int k = 0; k < MAXFV; ++k) s.fhe[i][k] = s.fhe[i + 1][k]; }
+  for (int i = h; i + 1 < s.nF; ++i) { s.fval[i] = s.fval[i + 1]; s.fdel[i] = s.fdel[i + 1]; s.fid[i] = s.fid[i + 1]; for (int k = 0; k < MAXFV; ++k) s.fhe[i][k] = s.fhe[i + 1][k]; }
   --s.nF;
 }
 static void ref_remove_c(Snap &s, int h) {
-  for (int i = h; i + 1 < s.nC; ++i) { s.cval[i] = s.cval[i + 1]; s.cdel[i] = s.cdel[i + 1]; for (int k = 0; k < MAXCV; ++k) s.chf[i][k] = s.chf[i + 1][k]; }
+  for (int i = h; i + 1 < s.nC; ++i) { s.cval[i] = s.cval[i + 1]; s.cdel[i] = s.cdel[i + 1]; s.cid[i] = s.cid[i + 1]; for (int k = 0; k < MAXCV; ++k) s.chf[i][k] = s.chf[i + 1][k]; }
   --s.nC;
 }
 // physically remove entity h of the given kind: fast = swap with last then drop the last
